@@ -29,6 +29,12 @@ fn main() {
         let mut tr = Trace::new(std::io::sink());
         tr.step(&mut sim, "SrvFrame", json!({"tick": false, "dt": 0}));
         tr.step(&mut sim, "Connect", json!({"c": "c1"}));
+        if run % 4 == 3 {
+            // ticks of two varint bytes: longer message headers
+            for _ in 0..130 {
+                tr.step(&mut sim, "SrvFrame", json!({"tick": true, "dt": 0}));
+            }
+        }
         for e in &ents {
             tr.step(&mut sim, "Spawn", json!({"e": e, "comps": ["A"], "repl": true}));
         }
